@@ -234,6 +234,7 @@ pub struct Src {
     /// per child: a handle on the loop-side end (shares the open file description)
     pub own: Vec<Option<Rc<UnixStream>>>,
     pub fds: Vec<i32>,
+    pub last_tok: Option<usize>,
 }
 
 pub struct World {
@@ -289,7 +290,14 @@ fn run_callback(w: &W, s: u32, sub: usize, payload: Value) -> Value {
         wb.stack.pop();
         wb.now_us()
     };
-    ev("cbret", json!({"s": s, "ret": ret.clone(), "us": us}));
+    let (rs, arg) = match &ret {
+        Value::String(x) => (x.clone(), 0),
+        Value::Object(m) if m.contains_key("to") => ("to".to_string(), m["to"].as_i64().unwrap_or(0)),
+        Value::Object(m) if m.contains_key("dur") => ("dur".to_string(), m["dur"].as_i64().unwrap_or(0)),
+        Value::Object(m) if m.contains_key("durmax") => ("durmax".to_string(), 0),
+        _ => ("none".to_string(), 0),
+    };
+    ev("cbret", json!({"s": s, "ret": rs, "arg": arg, "us": us}));
     ret
 }
 
@@ -357,6 +365,7 @@ pub fn build_source(spec: &Value, faults: &Rc<Faults>, base: Instant, tick: Dura
         peers: vec![],
         own: vec![],
         fds: vec![],
+        last_tok: None,
     };
     macro_rules! wrap {
         ($inner:expr) => {{
@@ -487,6 +496,7 @@ pub fn build_dup_source(spec: &Value, of: &Src, c: usize, faults: &Rc<Faults>) -
         peers: vec![None],
         own: vec![Some(sock.clone())],
         fds: vec![sock.as_raw_fd()],
+        last_tok: None,
     }
 }
 
@@ -522,6 +532,18 @@ pub fn snapshot(w: &W) {
 pub fn exec_op(w: &W, lp: Option<&mut Option<EventLoop<'static, ()>>>, op: &Value, ctx: i64) {
     let name = op["op"].as_str().unwrap_or("").to_string();
     let s = op.get("s").and_then(|v| v.as_u64()).map(|v| v as u32);
+    let mut op = op.clone();
+    // "ts": the latest token issued for source `ts` (resolved here, logged as "t")
+    if let Some(ts) = op.get("ts").and_then(|v| v.as_u64()) {
+        let wb = w.borrow();
+        let want = wb.srcs.get(&(ts as u32)).and_then(|x| x.last_tok);
+        drop(wb);
+        match want {
+            Some(ti) => op["t"] = json!(ti),
+            None => op["t"] = json!(1_000_000),
+        }
+    }
+    let op = &op;
     let t = op.get("t").and_then(|v| v.as_u64()).map(|v| v as usize);
     let mut begin = op.clone();
     begin["ctx"] = json!(ctx);
@@ -555,6 +577,7 @@ pub fn exec_op(w: &W, lp: Option<&mut Option<EventLoop<'static, ()>>>, op: &Valu
                     let ti = wb.tokens.len() - 1;
                     let src = wb.srcs.get_mut(&s).unwrap();
                     src.held = held;
+                    src.last_tok = Some(ti);
                     ret["t"] = json!(ti);
                     ret["tid"] = tok_json(&tok);
                     ret["s"] = json!(s);
@@ -897,6 +920,43 @@ pub fn install_observer(w: &W) {
     })));
 }
 
+/// The declaration of a source as logged in `reset`: every field present, no nulls.
+fn normal_decl(spec: &Value, fds: &[i32]) -> Value {
+    let kind = spec["kind"].as_str().unwrap_or("ping");
+    let children: Vec<Value> = if kind == "comp" {
+        spec["children"]
+            .as_array()
+            .cloned()
+            .unwrap_or_else(|| vec![json!({})])
+            .iter()
+            .map(|c| {
+                json!({"interest": c["interest"].as_str().unwrap_or("r"),
+                       "mode": c["mode"].as_str().unwrap_or("level"),
+                       "transient": c["transient"].as_u64().unwrap_or(0),
+                       "fd": c["fd"].as_str().unwrap_or("sock")})
+            })
+            .collect()
+    } else if spec.get("dupof").is_some() {
+        vec![json!({"interest": spec["interest"].as_str().unwrap_or("r"),
+                    "mode": spec["mode"].as_str().unwrap_or("level"),
+                    "transient": 0, "fd": "sock"})]
+    } else {
+        vec![]
+    };
+    json!({
+        "s": spec["s"],
+        "kind": if spec.get("dupof").is_some() { "comp" } else { kind },
+        "life": spec["life"].as_u64().unwrap_or(0),
+        "held": spec["held"].as_u64().unwrap_or(0),
+        "dl": spec["dl"].as_i64().unwrap_or(-1_000_000),
+        "hasdl": spec["dl"].is_i64() as u8,
+        "cap": spec["cap"].as_i64().unwrap_or(-1),
+        "children": children,
+        "fds": fds,
+        "synth": spec["synth"].as_array().cloned().unwrap_or_default(),
+    })
+}
+
 /// Run one scenario: `{"id":..., "tick_us":..., "sources":[...], "faults":[...], "progs":{...}, "steps":[...]}`.
 pub fn run_scenario(scn: &Value) {
     let tick = Duration::from_micros(scn["tick_us"].as_u64().unwrap_or(20_000));
@@ -913,6 +973,7 @@ pub fn run_scenario(scn: &Value) {
         }
     }
     let base = Instant::now();
+    crate::trace::set_base(base);
     let mut progs = BTreeMap::new();
     if let Some(p) = scn["progs"].as_object() {
         for (k, v) in p {
@@ -948,9 +1009,7 @@ pub fn run_scenario(scn: &Value) {
             } else {
                 build_source(spec, &faults, base, tick)
             };
-            let mut d = spec.clone();
-            d["fds"] = json!(src.fds);
-            decl.push(d);
+            decl.push(normal_decl(spec, &src.fds));
             w.borrow_mut().srcs.insert(s, src);
         }
     }
